@@ -330,3 +330,20 @@ mod tests {
         Ok(())
     }
 }
+
+#[cfg(feature = "verif-hooks")]
+impl IOQueue {
+    /// verif hook: construct queue in an arbitrary representation state
+    pub fn verif_from_parts(chunks: VecDeque<Vec<u8>>, offset: usize, length: usize) -> Self {
+        Self {
+            chunks,
+            offset,
+            length,
+        }
+    }
+
+    /// verif hook: expose representation (chunks, offset, length)
+    pub fn verif_parts(&self) -> (&VecDeque<Vec<u8>>, usize, usize) {
+        (&self.chunks, self.offset, self.length)
+    }
+}
